@@ -3,7 +3,7 @@
    No Extract Constant directive is used. *)
 From Coq Require Import ExtrOcamlBasic.
 From Coq Require Import ZArith NArith List.
-From V Require Import Model.Quorum Model.Median Model.ZMap Model.HgImpl Model.Store Model.NodeModel Model.HgSpec Model.Gate Model.Proxy Model.FastSync.
+From V Require Import Model.Quorum Model.Median Model.ZMap Model.HgImpl Model.Store Model.NodeModel Model.HgSpec Model.Gate Model.Proxy Model.FastSync Model.Wire.
 Extraction Language OCaml.
 Set Extraction KeepSingleton.
 Separate Extraction Z.add Z.mul Z.div Z.modulo Z.opp Z.sub Z.of_nat Z.to_nat Z.of_N Z.to_N Z.eqb Z.ltb Z.leb
@@ -16,6 +16,8 @@ Separate Extraction Z.add Z.mul Z.div Z.modulo Z.opp Z.sub Z.of_nat Z.to_nat Z.o
   HgSpec.spec_mismatches
   Gate.process_rpc Gate.add_transaction Gate.check_suspend Gate.init_state Gate.step Gate.run
   Proxy.call Proxy.call_attempts Proxy.through_block Proxy.through_cresp Proxy.through_bytes
+  Proxy.new_peer Proxy.bytes_null Proxy.bytes_denull
   FastSync.ff_decide FastSync.ff_decide_fixed FastSync.core_ff FastSync.core_ff_fixed FastSync.node_ff
   FastSync.node_ff_fixed FastSync.core_ff_gen FastSync.node_ff_gen FastSync.rule_current FastSync.rule_fixed
-  FastSync.distinct_valid_signers FastSync.ffres_class.
+  FastSync.distinct_valid_signers FastSync.ffres_class
+  Wire.set_wire_info Wire.to_wire Wire.read_wire Wire.wire_rt Wire.json_rt_wevent Wire.json_rt_itx Wire.json_rt_block Wire.json_rt_frame Wire.db_rt Wire.ug_rt_frame Wire.frame_digest Wire.view_frame Wire.view_block Wire.same_event_hash Wire.verify_preserved Wire.same_itx_hash Wire.same_body_hash Wire.same_block_hash Wire.same_frame_hash.
